@@ -43,6 +43,7 @@ RI = "pipefunc.map._run_info"
 WIRED = [
     (f"{PL}.add", f"{VAL}.validate_unique_output_names", "duplicate output names"),
     (f"{PL}.add", f"{PL}._validate", "pipeline-level validation on every add"),
+    (f"{PL}.output_to_func", f"{VAL}.validate_unique_output_names", "duplicate output names created by a rename (the name table is rebuilt after every invalidation and consulted by every run/map)"),
     (f"{PL}._validate", f"{VAL}.validate_consistent_defaults", "inconsistent defaults"),
     (f"{PL}._validate", f"{VAL}.validate_scopes", "scope used as parameter name"),
     (f"{PL}.graph", f"{VAL}.validate_consistent_defaults", "defaults made inconsistent through a member function (graph is rebuilt after every invalidation)"),
@@ -127,8 +128,14 @@ def _call_nodes(ctx: Ctx, fn: FuncInfo, target: str) -> set[int]:
     # a loop that makes the call for every item counts as a whole: its zero-iteration path has nothing to validate
     for lp in cfg.nodes(lambda s_: isinstance(s_, (ast.For, ast.AsyncFor))):
         body = cfg.stmt[lp].body
-        if body and any(cfg.node(b) in out for b in body[:1] if not isinstance(b, (ast.FunctionDef, ast.ClassDef))):
-            out.add(lp)
+        for b in body:  # the call is a statement of the loop body itself and nothing before it can leave the iteration
+            if isinstance(b, (ast.FunctionDef, ast.ClassDef)):
+                continue
+            if cfg.node_of.get(id(b)) in out:
+                out.add(lp)
+                break
+            if any(isinstance(x, (ast.Continue, ast.Break, ast.Return, ast.Raise)) for x in ast.walk(b)):
+                break
     return out
 
 
@@ -500,6 +507,7 @@ def check(ctx: Ctx) -> None:
 
 B, PFF, PR, RIF = "pipefunc/_pipeline/_base.py", "pipefunc/_pipefunc.py", "pipefunc/map/_prepare.py", "pipefunc/map/_run_info.py"
 MUTANTS = [
+    Mutant("name-table-keeps-last-duplicate-F43", "pipefunc/_pipeline/_base.py", "            validate_unique_output_names(f.output_name, output_to_func)\n            output_to_func[f.output_name] = f\n", "            output_to_func[f.output_name] = f\n", ("C12.1-wired",), why="original F43"),
     Mutant("duplicate-parameters-F39", "pipefunc/_pipefunc.py", "        if len(set(self.parameters)) != len(self.parameters):\n", "        if False:\n", ("C12.1-wired",), why="original F39"),
     Mutant("clash-exempts-bound", "pipefunc/_pipefunc.py", "        if overlap := set(self.parameters) & set(at_least_tuple(self.output_name)):\n", "        if overlap := (set(self.parameters) - set(self._bound)) & set(at_least_tuple(self.output_name)):\n", ("C12.1-wired",), why="round-4 seed C12/10"),
     Mutant("defaults-none-as-absent", "pipefunc/_pipeline/_validation.py", "            if arg not in arg_defaults:\n                arg_defaults[arg] = default_value\n            elif default_value != arg_defaults[arg]:\n",
